@@ -33,6 +33,27 @@ pub struct Val {
     pub phantom: bool,
 }
 
+/// Destructor re-entrancy (C16): when set, every `Val` that is dropped looks its key up in this cache.  A value
+/// dropped while a shard lock is held then deadlocks, which the watchdog reports.
+pub static DROP_HOOK: Mutex<Option<Arc<dyn Fn(u64) + Send + Sync>>> = Mutex::new(None);
+thread_local! {
+    static IN_DROP_HOOK: std::cell::Cell<bool> = const { std::cell::Cell::new(false) };
+}
+
+impl Drop for Val {
+    fn drop(&mut self) {
+        if IN_DROP_HOOK.with(|f| f.get()) {
+            return;
+        }
+        let hook = DROP_HOOK.lock().clone();
+        if let Some(h) = hook {
+            IN_DROP_HOOK.with(|f| f.set(true));
+            h(self.key);
+            IN_DROP_HOOK.with(|f| f.set(false));
+        }
+    }
+}
+
 #[derive(Clone, Copy, Debug, PartialEq)]
 pub enum HMode {
     Id,
@@ -110,12 +131,16 @@ pub struct MemCfg {
     pub lfu_window: f64,
     pub lfu_protected: f64,
     pub cb: CbMode,
+    /// values re-enter the cache from their destructor
+    pub dropre: bool,
+    /// build the cache with an event listener (without one the notifications are not observed)
+    pub listener: bool,
 }
 
 impl MemCfg {
     pub fn line(&self) -> String {
         format!(
-            "cfg domain=mem algo={} impl={} shards={} cap={} keys={} hmode={} hp_bits={} s3_small_bits={} s3_ghost_bits={} s3_thr={} lfu_window_bits={} lfu_protected_bits={} cm_rows={} cm_buckets={} cb={}",
+            "cfg domain=mem algo={} impl={} shards={} cap={} keys={} hmode={} hp_bits={} s3_small_bits={} s3_ghost_bits={} s3_thr={} lfu_window_bits={} lfu_protected_bits={} cm_rows={} cm_buckets={} cb={} dropre={} listener={}",
             self.algo,
             self.imp,
             self.shards,
@@ -131,6 +156,8 @@ impl MemCfg {
             datasketches::countmin::CountMinSketch::<u16>::suggest_num_hashes(0.9),
             datasketches::countmin::CountMinSketch::<u16>::suggest_num_buckets(0.001),
             self.cb.name(),
+            self.dropre as u8,
+            self.listener as u8,
         )
     }
 
@@ -152,6 +179,8 @@ impl MemCfg {
             lfu_window: bits("lfu_window_bits", 0.1),
             lfu_protected: bits("lfu_protected_bits", 0.8),
             cb: CbMode::parse(&g("cb", "none")),
+            dropre: g("dropre", "0") == "1",
+            listener: g("listener", "1") == "1",
         }
     }
 
@@ -384,15 +413,23 @@ impl MemExec {
         let leaves: Log<(Event, u64, u64, u64)> = Default::default();
         let piped: Log<(u64, u64, u64)> = Default::default();
         let re = Arc::new(Mutex::new(Reentry { mode: CbMode::None, cache: None, depth: 0, keys: cfg.keys, lines: vec![], next_rid: 0, next_ver: 1 }));
-        let cache: MCache = CacheBuilder::new(cfg.cap)
+        // drop the previous case's hook (and with it its cache) outside the hook's own lock
+        let old = DROP_HOOK.lock().take();
+        drop(old);
+        let b = CacheBuilder::new(cfg.cap)
             .with_shards(cfg.shards)
             .with_eviction_config(cfg.eviction_config())
             .with_hash_builder(FnBuildHasher(cfg.hmode))
             .with_weighter(|_k: &u64, v: &Val| v.weight)
-            .with_filter(|_k: &u64, v: &Val| !v.phantom)
-            .with_event_listener(Arc::new(Listener { log: leaves.clone(), re: re.clone() }))
-            .build::<CacheProperties>()
-            .with_pipe(Arc::new(RecPipe { log: piped.clone() }));
+            .with_filter(|_k: &u64, v: &Val| !v.phantom);
+        let b = if cfg.listener { b.with_event_listener(Arc::new(Listener { log: leaves.clone(), re: re.clone() })) } else { b };
+        let cache: MCache = b.build::<CacheProperties>().with_pipe(Arc::new(RecPipe { log: piped.clone() }));
+        if cfg.dropre {
+            let c = cache.clone();
+            *DROP_HOOK.lock() = Some(Arc::new(move |k: u64| {
+                let _ = c.contains(&k);
+            }));
+        }
         let rt = tokio::runtime::Builder::new_current_thread().enable_all().build().unwrap();
         re.lock().cache = Some(cache.clone());
         re.lock().mode = cfg.cb;
@@ -532,8 +569,10 @@ impl MemExec {
             }
             line.push_str("\nop=contains k=0 ret=");
             line.push_str(if self.cache.contains(&0) { "t" } else { "f" });
-        } else {
+        } else if self.cfg.listener {
             let _ = write!(line, " ret={ret} leaves={} piped={}", show_list(leaves), show_list(piped));
+        } else {
+            let _ = write!(line, " ret={ret} piped={}", show_list(piped));
         }
         let has: Vec<String> = (0..self.cfg.keys)
             .chain(if reentrant { 1000..1003 } else { 0..0 })
@@ -568,6 +607,9 @@ impl MemExec {
 
 /// Set by `cb=1`: re-entrant listener campaigns (C16), single shard.
 pub static REENTRANT: std::sync::atomic::AtomicBool = std::sync::atomic::AtomicBool::new(false);
+
+/// Set by `dropre=1`: values re-enter the cache from their destructor; half of the caches have no listener (C16).
+pub static DROPRE: std::sync::atomic::AtomicBool = std::sync::atomic::AtomicBool::new(false);
 
 /// Set by `collide=1`: only colliding hashers (C17 campaigns).
 pub static COLLIDE: std::sync::atomic::AtomicBool = std::sync::atomic::AtomicBool::new(false);
@@ -608,6 +650,8 @@ pub fn gen_cfg(rng: &mut Rng, mode: &str, algo: &str) -> MemCfg {
         lfu_window: *rng.pick(&[0.1, 0.3, 0.5]),
         lfu_protected: *rng.pick(&[0.8, 0.5, 0.3]),
         cb: CbMode::None,
+        dropre: false,
+        listener: true,
     }
     .fix()
 }
@@ -668,6 +712,11 @@ pub fn run_case(rng: &mut Rng, mode: &str, algo: &str, maxops: u64) -> String {
     if REENTRANT.load(std::sync::atomic::Ordering::Relaxed) {
         cfg.shards = 1;
         cfg.cb = *rng.pick(&[CbMode::Contains, CbMode::Get, CbMode::Insert, CbMode::Remove]);
+    }
+    if DROPRE.load(std::sync::atomic::Ordering::Relaxed) {
+        cfg.shards = 1;
+        cfg.dropre = true;
+        cfg.listener = rng.chance(1, 2);
     }
     let mut out = cfg.line();
     out.push('\n');
@@ -772,6 +821,7 @@ pub fn main(args: &Args) -> i32 {
     let maxops = arg_u64(args, "maxops", 40);
     COLLIDE.store(arg_u64(args, "collide", 0) == 1, std::sync::atomic::Ordering::Relaxed);
     REENTRANT.store(arg_u64(args, "cb", 0) == 1, std::sync::atomic::Ordering::Relaxed);
+    DROPRE.store(arg_u64(args, "dropre", 0) == 1, std::sync::atomic::Ordering::Relaxed);
     let mode = arg_str(args, "mode", "oracle").to_string();
     let algo_arg = arg_str(args, "algos", "fifo,lru,sieve,s3fifo,lfu").to_string();
     let algos: Vec<&str> = algo_arg.split(',').collect();
